@@ -188,7 +188,32 @@ func computeWriteOnlyFields(w *World) {
 				return true
 			})
 			skip := map[ast.Node]bool{}
+			// a read inside a statistics report (a function whose only result is map[string]any) feeds
+			// nothing but the report
+			var reports [][2]token.Pos
+			for _, d := range f.Decls {
+				if fd, ok := d.(*ast.FuncDecl); ok && fd.Body != nil && fd.Type.Results != nil && len(fd.Type.Results.List) == 1 {
+					if mt, ok := info.TypeOf(fd.Type.Results.List[0].Type).(*types.Map); ok {
+						if b, ok := mt.Key().(*types.Basic); ok && b.Kind() == types.String {
+							if it, ok := mt.Elem().Underlying().(*types.Interface); ok && it.NumMethods() == 0 {
+								reports = append(reports, [2]token.Pos{fd.Body.Pos(), fd.Body.End()})
+							}
+						}
+					}
+				}
+			}
+			inReport := func(p token.Pos) bool {
+				for _, r := range reports {
+					if r[0] <= p && p < r[1] {
+						return true
+					}
+				}
+				return false
+			}
 			ast.Inspect(f, func(n ast.Node) bool {
+				if n != nil && inReport(n.Pos()) {
+					return false
+				}
 				var obj types.Object
 				switch x := n.(type) {
 				case *ast.SelectorExpr:
